@@ -88,6 +88,16 @@ package channel
 //@   ensures #hands-out-queue-head result.1 == nil ==> rd == old(rd) ++ result.0 && (len(old(c.Q.queue)) == 0 ? (len(result.0) == 0 && c.Q.queue == old(c.Q.queue)) : (result.0 == old(c.Q.queue)[0] && c.Q.queue == old(c.Q.queue)[1:len(old(c.Q.queue))]))
 //@   ensures #exited-means-error c.readLoopExited ==> result.1 != nil
 
+// the take-everything read answers like the one-chunk read: a pending error or an exited reader is an error, and then
+// nothing is taken from the queue; otherwise everything queued is handed out in order
+//@ func (*Channel).ReadAll [C06]
+//@   requires RI(c.Q)
+//@   modifies c.Q.queue, c.Q.depth, chan(c.Q.depthChan), chan(c.Errs)
+//@   ensures #ri RI(c.Q)
+//@   ensures #nil-on-error result.1 != nil ==> len(result.0) == 0 && c.Q.queue == old(c.Q.queue)
+//@   ensures #exited-means-error c.readLoopExited ==> result.1 != nil
+//@   ensures #hands-out-everything-queued result.1 == nil ==> (len(old(c.Q.queue)) == 0 ? (len(result.0) == 0 && c.Q.queue == old(c.Q.queue)) : (result.0 == concatAll(old(c.Q.queue)) && len(c.Q.queue) == 0))
+
 // polled: ghost - the context was polled in this iteration of a read-until loop
 //@ ghost polled bool local
 //@ func (*Channel).ReadUntilPrompt [C01 C05 C06 C12]
